@@ -31,7 +31,7 @@ PATHS_SMALL = ["a.rs", "src/a-b.rs", "x-7-y.rs", "Makefile", "pkg-1.2-3-rc/src/m
 NUMBERS_FULL = [None, 1, 7, 123]
 NUMBERS_SMALL = [None, 7, 123]
 CODES_FULL = ["x", "a:b", "foo-7-bar", "", "\tind", "é漢", "long " * 12 + "end", "main() main",
-              "  \t  \tint main = 2;", "\t\tmain", " \tmain", "odds = arr[1:10:2]", "at 12:30:00 main"]
+              "  \t  \tint main = 2;", "\t\tmain", " \tmain", "odds = arr[1:10:2]", "at 12:30:00 main", "   "]
 CODES_SMALL = ["x main", "a:b-3-c", "", "\tmain é", "    \t    \tint main = 2;"]
 KINDS = [("match", ":"), ("context", "-"), ("header", "=")]
 
@@ -89,6 +89,7 @@ def parse_rows(out):
         classes = [c for _, c in runs]
         text = row.text
         if not text.strip():
+            res.append(("blank",))
             continue
         if text.strip() == "--":
             res.append(("sep",))
@@ -169,6 +170,12 @@ class Streams(Problem):
                 continue
             if item[0] == "sep":
                 continue
+            if item[0] == "blank":
+                # ripgrep-style output: a hit without number whose code is empty or blank is a blank row (which
+                # cannot be told from the blank row that separates files: either may stand for the hit)
+                if q and q[0].number is None and expand(q[0].code).strip(" ") == "":
+                    q.pop(0)
+                continue
             _, path, number, code, mcells, mruns = item
             if not q:
                 raise ViolationError("extra-row", "a grep row %r/%r/%r with no pending hit" % (path, number, code),
@@ -213,9 +220,7 @@ class Streams(Problem):
 
 
 def make_hits(paths, numbers, codes, kinds=KINDS):
-    # (a hit with neither a number nor code is an empty row in ripgrep-style output: unobservable)
-    return [Hit(k, s, p, n, c) for (k, s) in kinds for p in paths for n in numbers for c in codes
-            if not (n is None and c == "")]
+    return [Hit(k, s, p, n, c) for (k, s) in kinds for p in paths for n in numbers for c in codes]
 
 
 def ambiguous_plain(h):
@@ -330,7 +335,11 @@ def main(tier):
                               ("plain", ["rg", "main"], [h for h in small if not ambiguous_plain(h) and h.kind != "header"])):
         for lbl, ov in (("default", {}), ("classic", {"grep-output-type": "classic"}),
                         ("ripgrep", {"grep-output-type": "ripgrep"}), ("navigate", {"navigate": True}),
-                        ("hyperlinks", {"hyperlinks": True}), ("ln", {"line-numbers": True})):
+                        ("hyperlinks", {"hyperlinks": True}), ("ln", {"line-numbers": True}),
+                        # options that belong to diffs must not change what a grep row shows
+                        # (classic style deliberately renders a function-context header like a hunk header,
+                        # so only the ripgrep style is claimed to be independent of hunk-header-style)
+                        ("ripgrep,hunk-header-raw", {"grep-output-type": "ripgrep", "hunk-header-style": "raw"})):
             if tier == "quick" and lbl in ("hyperlinks", "ln") and enc != "coloured":
                 continue
             tasks.append(("%s,%s,%s" % (enc, " ".join(caller or ["-"]), lbl), enc, caller, ov,
